@@ -6,6 +6,7 @@ import (
 	"reflect"
 	"sort"
 	"strings"
+	"unicode"
 
 	"github.com/grafana/codejen"
 	"github.com/grafana/cog/internal/ast"
@@ -69,6 +70,10 @@ func (jenny RawTypes) generateSchema(context languages.Context, schema *ast.Sche
 	validationMethodsGenerator := newValidationMethods(jenny.tmpl, jenny.packageMapper, jenny.apiRefCollector)
 
 	if err := jenny.checkConstructorNames(context, schema); err != nil {
+		return nil, err
+	}
+
+	if err := jenny.checkFieldTags(schema); err != nil {
 		return nil, err
 	}
 
@@ -208,6 +213,66 @@ func (jenny RawTypes) checkConstructorNames(context languages.Context, schema *a
 	}
 
 	return nil
+}
+
+// checkFieldTags reports the fields whose name can not be written in a struct tag:
+// encoding/json reads the text before the first comma as the name, ignores a name that
+// holds a quote or a backslash, and takes `-` for "not encoded".
+func (jenny RawTypes) checkFieldTags(schema *ast.Schema) error {
+	var check func(object ast.Object, def ast.Type) error
+	check = func(object ast.Object, def ast.Type) error {
+		switch {
+		case def.IsStruct():
+			for _, field := range def.AsStruct().Fields {
+				if !isValidTagName(field.Name) {
+					return fmt.Errorf("%s.%s: the field '%s' can not be named in a Go struct tag: encoding/json would encode it under another name, or not at all", schema.Package, object.Name, field.Name)
+				}
+
+				if err := check(object, field.Type); err != nil {
+					return err
+				}
+			}
+		case def.IsArray():
+			return check(object, def.AsArray().ValueType)
+		case def.IsMap():
+			return check(object, def.AsMap().ValueType)
+		case def.IsDisjunction():
+			for _, branch := range def.AsDisjunction().Branches {
+				if err := check(object, branch); err != nil {
+					return err
+				}
+			}
+		}
+
+		return nil
+	}
+
+	for _, object := range schema.Objects.Values() {
+		if err := check(object, object.Type); err != nil {
+			return err
+		}
+	}
+
+	return nil
+}
+
+// isValidTagName follows encoding/json: a name is made of letters, digits and
+// some punctuation, in which the comma, the quotes and the backslash are not.
+func isValidTagName(name string) bool {
+	if name == "" || name == "-" {
+		return false
+	}
+
+	for _, char := range name {
+		switch {
+		case strings.ContainsRune("!#$%&()*+-./:;<=>?@[]^_{|}~ ", char):
+		case unicode.IsLetter(char) || unicode.IsDigit(char):
+		default:
+			return false
+		}
+	}
+
+	return true
 }
 
 func (jenny RawTypes) generateConstructor(buffer *strings.Builder, context languages.Context, object ast.Object) {
